@@ -21,6 +21,6 @@ CONFIG = dict(
     leanchecker=True,
     shrink={k: _SHRINK for k in ("corpus", "gen", "mut", "num", "lit", "raw")},
     timeout={"quick": 900, "thorough": 7200, "widen": 3600},
-    level_text="proof; partial: theorems about the mirrored response reader (no unread-without-read panic, nesting depth bounded by the decoder's limit, 0 / open-ended sets / over-deep nesting / malformed literals are errors, linear ghost cost of the number-list readers, enumeration length = set cardinality) with Legacy counterexamples for the repaired defects; the mirror is tied to the real client on every run, and a Lean oracle judges every stream's outcome (no panic in reader or accessors, no fatal event, termination, nothing invalid handed over, coarse time/memory growth)",
-    level_note="Trusted: Lean kernel; harness/driver. Time and memory are measured, not proved. Two findings are recorded as known, not repaired: the enumerating accessors are super-linear in the input by design (F25), and number sets kept as sorted slices make descending input quadratic (F27).",
+    level_text="proof; partial: for every input the mirrored response reader never reaches the decoder's panic site (parse_no_panic), never nests beyond the decoder's limit (depth_bounded), hands over no message number 0 and only canonical sets without '*' (delivered_nonzero, delivered_sets_static), and the enumerating accessors do not panic on what it hands over (accessors_no_panic); the ghost cost of the SORT/SEARCH number readers is at most 4 reads per input byte (cost_linear, proved for these two parsers only); the enumerating accessor returns exactly card(s) numbers and a 52-byte response with card = 2^32-1 exists (F25, machine-checked); concrete instances (zero, '*', overflow, nesting, malformed literal are errors) and Legacy counterexamples for every repaired defect by kernel evaluation. The mirror is tied to the real client on every run and a Lean oracle judges every stream: no panic in reader or accessors, no fatal event, termination, nothing invalid handed over, coarse CPU-time/allocation growth",
+    level_note="Trusted: Lean kernel; harness/driver; library code below the reader. Time and memory are measured (CPU time of a child process at sizes n and 2n, runtime.MemStats), not proved; linear ghost cost is proved for the SORT and SEARCH readers only. Two findings are recorded as known, not repaired: the enumerating accessors are super-linear in the input by design (F25), and number sets kept as sorted slices make descending input quadratic (F27).",
 )
